@@ -232,14 +232,14 @@ namespace vh
         if (std::isnan(f)) { return "nan"; }
         if (std::isinf(f)) { return f > 0 ? "inf" : "-inf"; }
         if (f == 0.0f) { return std::signbit(f) ? "-0" : "0"; }
-        if (std::fabs(f) < 1e15 && std::floor(f) == f)
+        if (std::fabs(f) < 16777216.0f && std::floor(f) == f)
         {
             char buf[64];
             std::snprintf(buf, sizeof(buf), "%.0f", (double)f);
             return buf;
         }
         char buf[64];
-        std::snprintf(buf, sizeof(buf), "%.9g", (double)f);
+        std::snprintf(buf, sizeof(buf), "%g", (double)f);
         return buf;
     }
     inline std::string render_string(const std::string& s)
